@@ -74,6 +74,13 @@ func init() {
 		in.Ghost["choice:"+name] = d
 		return smt.BV(uint64(d), 64)
 	}
+	// vFlag(name): concrete boolean fork (shape choices; no solver involved)
+	intrinsics["vFlag"] = func(in *Interp, fn *ssa.Function, a []Value) Value {
+		name := in.fresh(constStr(in, a[0], "vFlag name"))
+		d := in.Choose(2)
+		in.Ghost["choice:"+name] = d
+		return smt.Bool(d == 1)
+	}
 	intrinsics["vString"] = func(in *Interp, fn *ssa.Function, a []Value) Value {
 		name := in.fresh(constStr(in, a[0], "vString name"))
 		t := smt.NewVar(symName(name), smt.KStr, 0)
